@@ -45,6 +45,12 @@ def run_case(label, meta, layout=None, outdirs=("proj/doc",), expect_refusal=Fal
         open(pf, "w").write(md)
         allowed = [os.path.normpath(os.path.join(sb, o)) for o in outdirs]
         before = snapshot(sb, allowed)
+        keep = {}
+        for a in allowed[1:]:
+            for dd, _, ff in os.walk(a):
+                for f in ff:
+                    pth = os.path.join(dd, f)
+                    keep[pth] = hashlib.sha1(open(pth, "rb").read()).hexdigest()
         env = dict(os.environ, FORD_DEBUGGING="1", PYTHONHASHSEED="0")
         r = subprocess.run([sys.executable, "-m", "bounded.fordrun", sb, pf] + ([json.dumps(cargs)] if cargs else []), cwd=VERIF, capture_output=True, text=True, timeout=600, env=env)
         line = [l for l in r.stdout.splitlines() if l.startswith("##FORDRUN##")]
@@ -55,6 +61,9 @@ def run_case(label, meta, layout=None, outdirs=("proj/doc",), expect_refusal=Fal
         outside = sorted({w[1] for w in rep["writes"] if not any(under(os.path.join(os.path.dirname(pf), w[1]) if not os.path.isabs(w[1]) else w[1], a) for a in allowed)
                           and under(os.path.join(os.path.dirname(pf), w[1]) if not os.path.isabs(w[1]) else w[1], sb)})
         changed = sorted(k for k in set(before) | set(after) if before.get(k) != after.get(k))
+        for pth, h in keep.items():
+            if not os.path.exists(pth) or hashlib.sha1(open(pth, "rb").read()).hexdigest() != h:
+                changed.append("pre-existing file in the graph directory: " + os.path.relpath(pth, sb))
         if expect_refusal:
             if not rep["status"].startswith("ValueError") or rep["writes"] or changed:
                 return {"label": label, "problem": "source directory inside the output directory was not refused before touching the disk",
@@ -79,6 +88,7 @@ def cases():
     yield ("output equals source dir", "src_dir: ./src\noutput_dir: ./src\ngraph: false\n", None, ("proj/src",), True)
     yield ("output above source dir", "src_dir: ./code/src\noutput_dir: ./code\ngraph: false\n", {"proj/code/src/m.f90": SRC, "proj/code/notes.txt": "n"}, ("proj/nothing",), True)
     yield ("second source dir inside output", "src_dir: ./src\n    ./doc/gen\noutput_dir: ./doc\ngraph: false\n", {"proj/doc/gen/g.f90": SRC}, ("proj/nothing",), True)
+    yield ("graph_dir holding input files", "src_dir: ./src\noutput_dir: ./doc\ngraph: true\ngraph_dir: ./src\n", None, ("proj/doc", "proj/src"), False)
     yield ("stale output directory", "src_dir: ./src\noutput_dir: ./doc\ngraph: false\n", {"proj/doc/stale.html": "old"}, ("proj/doc",), False)
 
 
